@@ -21,7 +21,39 @@ class ModelRun:
         self.dir = os.path.join(SPEC, subdir) if subdir else DESIGN_DIR
 
 
+class ApalacheRun:
+    """inductive-invariant check with Apalache: Init => Inv (length 0), Inv /\\ Next => Inv' (length 1),
+    Inv => each property (length 0).  Unbounded in the integers of the model, for the constants of CInit."""
+    def __init__(self, module, cinit, init, indinv, props, tier="thorough", timeout=900):
+        self.module, self.cinit, self.init, self.indinv, self.props, self.tier, self.timeout = module, cinit, init, indinv, props, tier, timeout
+        self.cfg, self.expect, self.dir = "apalache:" + indinv, "ok", DESIGN_DIR
+
+
+def _run_apalache(m):
+    import tempfile, shutil, time
+    t0 = time.time()
+    out_dir = tempfile.mkdtemp(prefix="apalache-", dir=WORK)
+    steps = [(m.init, m.indinv, 0), (m.indinv, m.indinv, 1)] + [(m.indinv, p, 0) for p in m.props]
+    ok, tail = True, ""
+    try:
+        for init, inv, length in steps:
+            rc, out = run(["apalache-mc", "check", "--out-dir=" + out_dir, "--cinit=" + m.cinit, "--init=" + init, "--inv=" + inv,
+                           "--length=%d" % length, m.module + ".tla"], cwd=m.dir, timeout=m.timeout)
+            tail = out[-1500:]
+            if rc != 0 or "EXITCODE: OK" not in out:
+                if "EXITCODE: ERROR (12)" in out or "violat" in out.lower():
+                    ok = False
+                    break
+                raise InfraError("apalache failed on %s (%s => %s):\n%s" % (m.module, init, inv, out[-2000:]))
+    finally:
+        shutil.rmtree(out_dir, ignore_errors=True)
+    return {"module": m.module, "cfg": m.cfg, "expect": "ok", "outcome": "ok" if ok else "violated", "as_expected": ok,
+            "distinct": 0, "generated": 0, "obligations": len(steps), "wall_s": round(time.time() - t0, 2), "tail": tail}
+
+
 def _run(m):
+    if isinstance(m, ApalacheRun):
+        return _run_apalache(m)
     r = tlc.check_model(m.dir, m.module, m.cfg, workers=m.workers, timeout=m.timeout, heap=m.heap)
     out = r["out"]
     if r["rc"] == 0:
@@ -142,7 +174,8 @@ MODELS = {
             M("TempStackList", "MCTemp_wit_adopt.cfg", "witness"), M("TempStackList", "MCTemp_wit_race.cfg", "witness")],
     "C10": [M("Propagate", "MCProp.cfg"), M("Propagate", "MCProp_noprop.cfg"), M("Propagate", "MCProp_regress_swap.cfg", "witness"),
             M("Propagate", "MCProp_regress_eq.cfg", "witness"), M("Propagate", "MCProp_wit.cfg", "witness")],
-    "C13": [M("Storage", "MCStorage.cfg"), M("Storage", "MCStorage_regress.cfg", "witness"), M("Storage", "MCStorage_wit.cfg", "witness")] + LEAK,
+    "C13": [M("Storage", "MCStorage.cfg"), M("Storage", "MCStorage_regress.cfg", "witness"), M("Storage", "MCStorage_wit.cfg", "witness")] + LEAK
+           + [ApalacheRun("StorageInd", "CInit", "Init", "IndInv", ["AtMostOneInside", "NoLostUpdate"])],
 }
 
 # C19 / table part of C18 (plans_tables.py): arithmetic definitions vs. bit tricks, min_block_size layout
